@@ -16,13 +16,16 @@ RULE = (
     "SCMs with shared exogenous noise (exact rationals; reference/alternative values drawn per variable) and must "
     "have the probability of the original event; an 'inconsistent' verdict is refuted by any model giving the "
     "event positive probability; the returned graph must be acyclic, consist exactly of the ancestors of the "
-    "relabelled event and contain its variables; the input event dict and graph must be unchanged. non-trivial = "
+    "relabelled event and contain its variables; what the graph CLAIMS is checked against the models too (parts of the "
+    "relabelled event in different connected components, and event variables m-separated in the graph, must be "
+    "independent); the input event dict and graph must be unchanged. non-trivial = "
     ">=2 conjuncts in >=2 worlds (or a world and the factual one) and at least one node merge; distinct by "
     "(graph, event)."
 )
 ASSUMPTIONS = ["O1 multi-world evaluation (vmon/scm.py); sampled models; literal subscript values"]
 MIN_NONTRIVIAL = {"quick": 400, "thorough": 8000}
 REQUIRED = ["eval:make_counterfactual_graph", "eval:merge_pw", "C18:probabilities-compared", "C18:structure-checked",
+            "C18:component-factorisations-compared", "C18:separated-pairs-compared",
             "C18:inconsistent-verdicts", "C18:positive-probability-cases"]
 TIMEOUT = {"quick": 900, "thorough": 7200}
 
